@@ -529,6 +529,10 @@ def c31(ck, F, tier):
     guarded(ck, rs.spill_rules, F)
     guarded(ck, rs.dynamic_scalar_extent, F)
     guarded(ck, rs.cut_skip_same_sheet, F)
+    # a reordered anchor is re-evaluated from a clean state: the restart clears of Model::evaluate sit inside the restart loop
+    import rules_eval as re31
+    ck.rule("TYPESTATE-eval", "Evaluating/Evaluated mark discipline, restart clears inside the restart loop", floor=14)
+    guarded(ck, re31.typestate_eval, F)
 
 
 def c27(ck, F, tier):
